@@ -83,6 +83,81 @@ def _cvc5(solver: z3.Solver) -> tuple[str, str]:
     return first, out[:500]
 
 
+def _cvc5_seed(solver: z3.Solver, scale: int = 1) -> list | None:
+    """Model search by cvc5 for a ground query z3's sequence solver gives up on (nested sequences): the values cvc5 assigns to
+    the 0-ary constants are returned as z3 equalities.  They are only a SEED: z3 re-checks the query with them added, so a wrong
+    or unparsable cvc5 model can only make the search fail, never produce a counter-model."""
+    body = solver.to_smt2()
+    text = "(set-logic ALL)\n(set-option :produce-models true)\n" + body + "\n(get-model)\n"
+    text = re.sub(r"(?<![\w!.|])sep(?![\w!.|])", "sep_", text).replace("seq.nth_i", "seq.nth").replace("seq.nth_u", "seq.nth")
+    with tempfile.NamedTemporaryFile("w", suffix=".smt2", delete=False) as fh:
+        fh.write(text)
+        path = fh.name
+    try:
+        p = subprocess.run([CVC5, "--strings-exp", f"--tlimit={30000 * scale}", path], capture_output=True, text=True, timeout=30 * scale + 10)
+        out = p.stdout
+    except subprocess.TimeoutExpired:
+        return None
+    finally:
+        os.unlink(path)
+    if not out.startswith("sat"):
+        return None
+    # top-level s-expressions of the model
+    i, depth, start, items = out.index("(") + 1, 0, None, []
+    while i < len(out):
+        ch = out[i]
+        if ch == "(":
+            if depth == 0:
+                start = i
+            depth += 1
+        elif ch == ")":
+            if depth == 0:
+                break
+            depth -= 1
+            if depth == 0:
+                items.append(out[start:i + 1])
+        i += 1
+    decls = "\n".join(ln for ln in _top_level(body) if ln.startswith("(declare-"))
+    eqs = []
+    for it in items:
+        m = re.match(r"\(define-fun\s+(\|[^|]*\||\S+)\s+\(\)\s+", it)
+        if not m:
+            continue
+        name = m.group(1)
+        rest = it[m.end():-1].strip()
+        # rest = "<sort> <value>": split after the sort s-expression / symbol
+        if rest.startswith("("):
+            d = 0
+            for j, ch in enumerate(rest):
+                d += ch == "("
+                d -= ch == ")"
+                if d == 0:
+                    break
+            val = rest[j + 1:].strip()
+        else:
+            val = rest.split(None, 1)[1].strip()
+        name_z = "sep" if name == "sep_" else name
+        try:
+            eqs.extend(z3.parse_smt2_string(f"{decls}\n(assert (= {name_z} {val}))"))
+        except z3.Z3Exception:
+            continue
+    return eqs
+
+
+def _top_level(text: str) -> list:
+    out, depth, start = [], 0, None
+    for i, ch in enumerate(text):
+        if ch == "(":
+            if depth == 0:
+                start = i
+            depth += 1
+        elif ch == ")":
+            depth -= 1
+            if depth == 0 and start is not None:
+                out.append(text[start:i + 1])
+    return out
+
+
 Z3_QUICK_RLIMIT = int(os.environ.get("PYVC_Z3_QUICK_RLIMIT", "400000"))
 
 
@@ -172,7 +247,12 @@ def discharge_quick(ob: Obligation) -> str | None:
             ob.detail = "z3 model: " + str(s.model())[:1500]
         except z3.Z3Exception:
             pass
-    return smt2_of(s)
+    # dump from a solver that has never been checked: after an `unknown` answer z3 5.1 was seen to print some assertions as
+    # internal placeholders (k!NNN) - harmless for validity (hypotheses weakened) but useless for counter-model search
+    d = z3.Solver()
+    d.add(*ax)
+    d.add(*forms)
+    return smt2_of(d)
 
 
 def _abstracted_unsat(forms: list) -> bool:
@@ -412,6 +492,11 @@ def bounded_refute(text: str, scale: int = 1, bound: int = 6) -> str | None:
             for k in range(0, bound + 1):
                 s.add(z3.Implies(z3.And(od[k], *[z3.Not(x) for x in od[:k]]), app == k))
             s.add(z3.Implies(z3.And(*[z3.Not(x) for x in od]), app == -1))
+        elif nm == "flat":
+            (s_,) = app.children()
+            el = s_.sort().basis()
+            parts = [z3.If(z3.IntVal(k) < z3.Length(s_), s_[k], z3.Empty(el)) for k in range(bound)]
+            s.add(app == z3.Concat(*parts))
         elif nm in ("rk", "Resync"):
             s_, c_, p_ = app.children()
             LS, LP = z3.Length(s_), z3.Length(p_)
@@ -431,13 +516,38 @@ def bounded_refute(text: str, scale: int = 1, bound: int = 6) -> str | None:
                 s.add(z3.Implies(inrange, app == z3.If(LP == 0, z3.SubSeq(s_, c_, LS - c_),
                                                        z3.If(occ_c, z3.SubSeq(s_, c_ + LP, LS - c_ - LP), z3.SubSeq(s_, rkv, LS - rkv)))))
     m = None
+    seeded = False
+    base = list(s.assertions())  # master list; `s` itself is never checked (see fresh_solver)
+
+    def fresh_solver(extra=()):
+        # never incremental, never re-used: after a check z3 5.1's sequence solver was seen (a) to answer `unsat` on a satisfiable
+        # nested-sequence query once more assertions were pushed and (b) to print / hand back some assertions as internal
+        # placeholders (k!NNN); every round therefore starts from a new solver built from the master list
+        x = z3.Solver()
+        x.set("rlimit", Z3_RLIMIT * scale)
+        x.set("timeout", 30000 * scale)
+        x.add(*base)
+        x.add(*extra)
+        return x
+
     for _round in range(40):
-        r_ = s.check()
+        cur = fresh_solver()
+        r_ = cur.check()
+        if r_ == z3.unknown and not seeded:
+            # z3's sequence solver is incomplete on nested sequences: let cvc5 propose values for the constants, z3 re-checks
+            seeded = True
+            seed = _cvc5_seed(fresh_solver(), scale)
+            if dbg:
+                print("bounded: round", _round, "z3 unknown; cvc5 seed", None if seed is None else len(seed), file=sys.stderr)
+            if seed:
+                s2 = fresh_solver(seed)
+                if s2.check() == z3.sat:
+                    cur, r_ = s2, z3.sat
         if r_ != z3.sat:
             if dbg:
                 print("bounded: round", _round, "solver says", r_, file=sys.stderr)
             return None
-        m = s.model()
+        m = cur.model()
         changed = False
         for app in apps.values():
             argv = [m.eval(c, model_completion=True) for c in app.children()]
@@ -453,7 +563,7 @@ def bounded_refute(text: str, scale: int = 1, bound: int = 6) -> str | None:
                 if dbg:
                     print("bounded: round", _round, app.decl().name(), pa, "model says", _py_of(m.eval(app, model_completion=True)), "definition says", tv, file=sys.stderr)
                 try:
-                    s.add(z3.Implies(z3.And(*[c == v for c, v in zip(app.children(), argv)]), app == _z3_of(tv, app.sort())))
+                    base.append(z3.Implies(z3.And(*[c == v for c, v in zip(app.children(), argv)]), app == _z3_of(tv, app.sort())))
                 except ValueError:
                     return None
                 changed = True
@@ -472,7 +582,7 @@ def bounded_refute(text: str, scale: int = 1, bound: int = 6) -> str | None:
     for f in wide:
         if not _holds_definitionally(f, m):
             if dbg:
-                print("bounded: validation failed on", str(f)[:300], file=sys.stderr)
+                print("bounded: validation failed on", str(f)[:300], "model value:", m.eval(f, model_completion=True), file=sys.stderr)
             return None
     return (f"z3 model of the bounded instantiation (sequences <= {bound}), validated against the unbounded formulas with the "
             "specification functions evaluated by their definitions: " + str(m)[:1500])
